@@ -89,6 +89,20 @@ Theorem C15_stale_groups_refuted : ~ C15_stale_groups_statement.
 Proof. exact stale_groups_refuted. Qed.
 Print Assumptions C15_stale_groups_refuted.
 
+(* the answer depends on the execution's OWN context only: evaluating the rules with the match context supplied per
+   rule gives the model's answer whenever every rule sees the own context — nothing another execution does (over its
+   own context) enters *)
+Theorem C15_independent_of_other_executions : forall x ctx_at rules i,
+  (forall j, ctx_at j = x) -> eval_rules_at ctx_at i rules = eval_rules x rules.
+Proof. exact independent_of_other_executions. Qed.
+Print Assumptions C15_independent_of_other_executions.
+
+(* a shared mutable match context (rebound by a concurrent execution between two rules) is refuted *)
+Definition C15_shared_match_context_statement : Prop := shared_match_context_statement.
+Theorem C15_shared_match_context_refuted : ~ C15_shared_match_context_statement.
+Proof. exact shared_match_context_refuted. Qed.
+Print Assumptions C15_shared_match_context_refuted.
+
 (* ---- non-vacuity ---- *)
 Definition ex_ctx : wctx := mk_wctx 9 2 true true [(1, [1]); (2, [1; 2]); (3, [])].
 Definition ex_signer : signer :=
